@@ -489,6 +489,12 @@ func hsel(h, obj, slot *Term, depth int) *Term {
 			cur = mk(h.Sort, base)
 			continue
 		}
+		if strings.HasPrefix(row, "(select ") {
+			// the row is a copy of another object's row in some heap version: continue there
+			if ra := ctorArgs(mk(SInt, row), "select"); len(ra) == 2 {
+				return hsel(mk(h.Sort, ra[0]), mk(SInt, ra[1]), slot, depth+1)
+			}
+		}
 		if strings.HasPrefix(row, "((as const ") {
 			// freshly allocated zero row
 			k := strings.LastIndex(row, ") ")
